@@ -23,9 +23,14 @@ type tapeReader struct {
 	last  *big.Int // the bytes of the last Read as a little-endian integer
 	bad   bool     // a Read whose length is not a multiple of 4
 	reads int      // number of Read calls
+	only4 bool     // histories: only the 4-byte reads (the draws of RandIntn below 2^31) take words from the tape;
+	               // the NTS code of a client also reads crypto/rand.Reader (unique identifier, nonce)
 }
 
 func (t *tapeReader) Read(p []byte) (int, error) {
+	if t.only4 && len(p) != 4 {
+		return realReader.Read(p)
+	}
 	t.mu.Lock()
 	defer t.mu.Unlock()
 	if len(p)%4 != 0 {
@@ -52,6 +57,14 @@ var realReader = crand.Reader
 
 func withTape(words []uint32, d uint32, f func()) *tapeReader {
 	t := &tapeReader{words: words, d: d, last: new(big.Int)}
+	crand.Reader = t
+	defer func() { crand.Reader = realReader }()
+	f()
+	return t
+}
+
+func withTape4(words []uint32, d uint32, f func()) *tapeReader {
+	t := &tapeReader{words: words, d: d, last: new(big.Int), only4: true}
 	crand.Reader = t
 	defer func() { crand.Reader = realReader }()
 	f()
